@@ -59,7 +59,7 @@ type Step struct {
 	Name string `json:"name,omitempty"`
 }
 
-var editOps = []string{"addGlobal", "addFunc", "addBlock", "appendInst", "appendInst", "appendInst", "insertInst", "insertInst", "removeInst", "replaceInst", "replaceInst", "bulkAppend", "replaceTerm", "rename", "renameGlobal", "renameBlock", "addMetadata", "setAddrSpace", "takeBlockAddress"}
+var editOps = []string{"addGlobal", "addFunc", "addBlock", "appendInst", "appendInst", "appendInst", "insertInst", "insertInst", "removeInst", "replaceInst", "replaceInst", "bulkAppend", "replaceTerm", "rename", "renameGlobal", "renameBlock", "addMetadata", "setAddrSpace", "setAddrSpace", "keepType", "keepType", "takeBlockAddress"}
 var observeOps = []string{"obsString", "obsString", "obsWriteTo", "obsFailingWrite", "obsPanickingPrint", "obsFunc", "obsBlock", "obsInst", "obsType", "obsIdent", "obsOperands", "obsSuccs", "obsInitializer", "obsFailedCalls"}
 
 // world is the state built by replaying a history.
@@ -368,9 +368,52 @@ func (w *world) apply(s Step, observe bool) (printed string, isPrint bool) {
 				b.Insts = append(b.Insts, w.newInst(f, t))
 			}
 		}
+	case "keepType":
+		// the type that a global variable, a function or a stack slot reports is kept in another place: as the
+		// type of a parameter of a new declaration, or as the content type of a new global variable. It is one
+		// object in two places from then on; what is printed at the new place is decided here and now, whatever
+		// happens to the address space of the original later
+		var t types.Type
+		switch s.D % 3 {
+		case 0:
+			if k := pick(len(m.Globals), s.A); k >= 0 {
+				t = m.Globals[k].Type()
+			}
+		case 1:
+			if k := pick(len(m.Funcs), s.A); k >= 0 {
+				t = m.Funcs[k].Type()
+			}
+		default:
+			if f := w.fn(s.A); f != nil {
+				for _, b := range f.Blocks {
+					for _, i := range b.Insts {
+						if a, ok := i.(*ir.InstAlloca); ok && t == nil {
+							t = a.Type()
+						}
+					}
+				}
+			}
+		}
+		if t != nil {
+			w.nameN++
+			if s.B%2 == 0 {
+				m.NewFunc(fmt.Sprintf("keeps%d", w.nameN), types.Void, ir.NewParam("", t))
+			} else {
+				m.NewGlobal(fmt.Sprintf("keeps%d", w.nameN), t)
+			}
+		}
 	case "setAddrSpace":
-		// the only way to put a stack slot into an address space through the API: assign the field after construction
-		if f := w.fn(s.A); f != nil {
+		// the only way to put a stack slot (a global variable, a function) into an address space through the
+		// API: assign the field after construction
+		if s.D%3 == 1 {
+			if k := pick(len(m.Globals), s.A); k >= 0 {
+				m.Globals[k].AddrSpace = types.AddrSpace(1 + s.C%4)
+			}
+		} else if s.D%3 == 2 {
+			if k := pick(len(m.Funcs), s.A); k >= 0 {
+				m.Funcs[k].AddrSpace = types.AddrSpace(1 + s.C%4)
+			}
+		} else if f := w.fn(s.A); f != nil {
 			var as []*ir.InstAlloca
 			for _, b := range f.Blocks {
 				for _, i := range b.Insts {
